@@ -141,6 +141,15 @@ class Representation(RepresentationBaseType):
             return False
         if not await self.init_segment.load():
             return False
+        if not self.attrs.check_not_none(
+                self.segmentTemplate.media,
+                msg='SegmentTemplate@media is missing', clause='5.3.9.4.2'):
+            return False
+        if self.mode == 'live':
+            if not self.attrs.check_not_none(
+                    self.mpd.availabilityStartTime, clause='5.3.1.2',
+                    msg='MPD@availabilityStartTime is required for a live stream'):
+                return False
         frameRate = 24
         if self.frameRate is not None:
             frameRate = self.frameRate.value
@@ -273,6 +282,12 @@ class Representation(RepresentationBaseType):
     def generate_segments_using_segment_timeline(self, frameRate: float) -> None:
         timeline = self.segmentTemplate.segmentTimeline
         seg_duration = self.segmentTemplate.duration
+        if self.mode == 'live':
+            if not self.attrs.check_not_none(
+                    self.mpd.timeShiftBufferDepth,
+                    clause='5.3.1.2',
+                    msg='MPD@timeShiftBufferDepth is required for a live stream'):
+                return
         if seg_duration is None:
             if not self.elt.check_not_none(timeline, msg='Failed to find segment timeline'):
                 return
@@ -623,10 +638,17 @@ class Representation(RepresentationBaseType):
         if self.mpd.timeShiftBufferDepth is None:
             # missing MPD@timeShiftBufferDepth error is reported by manifest.py
             return
+        if self.mpd.availabilityStartTime is None:
+            # missing MPD@availabilityStartTime error is reported by manifest.py
+            return
         seg_duration = self.segmentTemplate.duration
         timeline = self.segmentTemplate.segmentTimeline
         timescale = self.segmentTemplate.timescale
         decode_time: int | None = None
+        if timeline is not None:
+            if not self.elt.check_greater_than(
+                    len(timeline.segments), 0, msg='Failed to find any segments in timeline'):
+                return
         if seg_duration is None:
             if not self.elt.check_not_none(timeline, msg='SegmentTimeline missing'):
                 return
